@@ -52,7 +52,7 @@ class get_relocation:
     returns = Obj('Relocation', entry=Any)
     ghost = {"$o": "self._offset + n * self.entry_size"}
     ensures = ["result.entry == P('Elf_Rela' if self._is_rela else 'Elf_Rel', self._stream.B, $o)"]
-    raises = {"ELFParseError": "$o < 2**63 and $o + self.entry_size > len(self._stream.B)", "OverflowError": "$o >= 2**63"}
+    raises = {"ELFParseError": "$o + self.entry_size > len(self._stream.B)"}
 
 
 @contract("elftools/elf/relocation.py", "RelocationTable.iter_relocations", props=["C08", "C19"])
